@@ -368,21 +368,41 @@ def run(ctx):
     import subprocess
     import tempfile
     rel = 'tests/data/207003.bufr'
-    with tempfile.TemporaryDirectory() as td:
-        outp = os.path.join(td, 'out.bufr')
-        env = dict(os.environ, PYTHONPATH=lib.REPO)
-        p = subprocess.run(['/venv/bin/python', '-m', 'pybufrkit', 'subset', '1', os.path.join(lib.REPO, rel), outp],
-                           cwd=td, env=env, stdout=subprocess.PIPE, stderr=subprocess.STDOUT, text=True, timeout=120)
-        ctx.count(('cli', rel, '1'))
-        ctx.dist['cli'] += 1
-        if p.returncode != 0 or not os.path.exists(outp):
-            ctx.notes.append('CLI subset not run: ' + p.stdout[-200:])
-        else:
-            src = Decoder().process(open(os.path.join(lib.REPO, rel), 'rb').read(), wire_template_data=False)
-            back = Decoder().process(open(outp, 'rb').read(), wire_template_data=False)
-            if back.n_subsets.value != 1 or back.template_data.value.decoded_values_all_subsets != \
-                    [src.template_data.value.decoded_values_all_subsets[1]]:
-                ctx.violation({'kind': 'subset-cli', 'case': {'file': rel, 'indices': [1]}}, 'CLI subset output wrong')
+    src = Decoder().process(open(os.path.join(lib.REPO, rel), 'rb').read(), wire_template_data=False)
+    n_src = src.n_subsets.value
+    src_vals = src.template_data.value.decoded_values_all_subsets
+    cli_cols = [[1], [0], list(range(n_src)), list(range(n_src))[::-1],
+                [0] * n_src,                                   # as many indices as subsets, all the same
+                ([0, 0] + list(range(1, n_src)))[:n_src],     # as many indices as subsets, one repeated
+                list(range(1, n_src + 1)),                    # as many indices as subsets, one out of range
+                [n_src], [-1, 0]]
+    for I in cli_cols:
+        if not I:
+            continue
+        with tempfile.TemporaryDirectory() as td:
+            outp = os.path.join(td, 'out.bufr')
+            env = dict(os.environ, PYTHONPATH=lib.REPO)
+            p = subprocess.run(['/venv/bin/python', '-m', 'pybufrkit', 'subset', ','.join(map(str, I)),
+                                os.path.join(lib.REPO, rel), outp],
+                               cwd=td, env=env, stdout=subprocess.PIPE, stderr=subprocess.STDOUT, text=True, timeout=120)
+            ctx.count(('cli', rel, tuple(I)))
+            ctx.dist['cli'] += 1
+            valid = all(0 <= i < n_src for i in I)
+            sel = sorted(set(I))
+            wrote = os.path.exists(outp) and os.path.getsize(outp) > 0
+            ok = True
+            if not valid:
+                ok = not wrote                      # refused: nothing written
+            elif not wrote:
+                ok = False
+            else:
+                back = Decoder().process(open(outp, 'rb').read(), wire_template_data=False)
+                ok = (back.n_subsets.value == len(sel) and
+                      back.template_data.value.decoded_values_all_subsets == [src_vals[i] for i in sel])
+            if not ok:
+                ctx.violation({'kind': 'subset-cli', 'case': {'file': rel, 'indices': I}, 'rc': p.returncode,
+                               'stdout': p.stdout[-200:]},
+                              'CLI subset %s: %s' % (I, 'not refused' if not valid else 'output is not the selected subsets'))
 
     # --- extraction cross-check by vm_compute ---------------------------------------
     items = []
